@@ -247,6 +247,59 @@ func (e *Engine) guardedKeys(class string) []string {
 	return out
 }
 
+type writeOnceField struct {
+	keys []string // heap keys of the field's leaves
+	zero string   // zero value of the first leaf (the field is unwritten while its first leaf is zero)
+}
+
+// writeOnceFields returns the fields declared `write_once <class>`.
+func (e *Engine) writeOnceFields(class string) []writeOnceField {
+	if e.woCache == nil {
+		e.woCache = map[string][]writeOnceField{}
+	}
+	if r, ok := e.woCache[class]; ok {
+		return r
+	}
+	var pks []string
+	for pk := range e.w.spec.Protects {
+		pks = append(pks, pk)
+	}
+	sort.Strings(pks)
+	var out []writeOnceField
+	for _, pk := range pks {
+		p := e.w.spec.Protects[pk]
+		if p.Class != "write_once" || p.Lock != class {
+			continue
+		}
+		tp := e.w.typesPkg(p.Pkg)
+		if tp == nil {
+			continue
+		}
+		obj := tp.Scope().Lookup(p.Struct)
+		if obj == nil {
+			continue
+		}
+		lo, hi, ft, _, ok := e.lookupField(obj.Type(), p.Field)
+		if !ok || hi <= lo {
+			continue
+		}
+		wf := writeOnceField{zero: e.fl.zero(e.c, ft)[0]}
+		for i := lo; i < hi; i++ {
+			k := e.keyField(obj.Type(), i)
+			if hi := e.heapInfo[k]; hi == nil || !strings.HasPrefix(string(hi.sort), "(Array Int ") {
+				wf.keys = nil
+				break
+			}
+			wf.keys = append(wf.keys, k)
+		}
+		if len(wf.keys) > 0 {
+			out = append(out, wf)
+		}
+	}
+	e.woCache[class] = out
+	return out
+}
+
 func (e *Engine) acquire(st *State, class string, ref string, fx *FnExec) {
 	keys := e.guardedKeys(class)
 	allocBefore := e.heapGet(st, e.keyAlloc())
@@ -266,6 +319,21 @@ func (e *Engine) acquire(st *State, class string, ref string, fx *FnExec) {
 	}
 	for _, k := range keys {
 		e.heapHavoc(st, k)
+	}
+	// write_once fields of this lock: another holder may have written them (from nil) meanwhile, so what this goroutine
+	// read in an earlier critical section is only known to persist where it was non-nil (a written value stays)
+	if !private {
+		for _, wf := range e.writeOnceFields(class) {
+			olds := make([]string, len(wf.keys))
+			for i, k := range wf.keys {
+				olds[i] = e.heapGet(st, k)
+				e.heapHavoc(st, k)
+			}
+			for i, k := range wf.keys {
+				n := e.heapGet(st, k)
+				e.assume(st, fmt.Sprintf("(forall ((r!q Int)) (! (=> (not (= (select %s r!q) %s)) (= (select %s r!q) (select %s r!q))) :pattern ((select %s r!q))))", olds[0], wf.zero, n, olds[i], n))
+			}
+		}
 	}
 	// other goroutines may have allocated objects meanwhile
 	na := e.c.fresh("alloc", SInt)
